@@ -116,6 +116,8 @@ func (l c36Label) coq() string {
 		return "LFire"
 	case "connect":
 		return vApp("LConnect", vN(uint64(l.E)), vBool(l.CSR), vN(uint64(l.FPres)), vN(uint64(l.FPing)))
+	case "connectslow":
+		return vApp("LConnectSlow", vN(uint64(l.E)), vBool(l.CSR), vN(uint64(l.FPres)), vN(uint64(l.FPing)), vN(uint64(l.D)))
 	case "subscribe":
 		return vApp("LSubscribe", vApp("mkSub", vN(uint64(l.Chan)), vN(uint64(l.E)), vBool(l.CSR), vBool(l.Server), vBool(l.Pos), vN(0), vBool(false)))
 	case "stream":
@@ -192,6 +194,8 @@ type c36H struct {
 	unsubDeadline time.Time
 	asked       []c36Ev
 	broker      *c36Broker
+	slowD       int           // seconds the OnConnect handler of the connect in progress takes
+	staleDone   chan struct{} // closed when the stale timer fired inside that handler has run
 	positioned  []int // channels subscribed with positioning (generator)
 	wantUnsub   int // unsubscribe pushes the current step must still deliver (they are written by goroutines)
 }
@@ -413,6 +417,23 @@ func c36New(t *testing.T, cfg c36Cfg) *c36H {
 		return ConnectReply{Credentials: &Credentials{UserID: "u", ExpireAt: h.abs(h.conn.E)}, ClientSideRefresh: h.conn.CSR}, nil
 	})
 	node.OnConnect(func(c *Client) {
+		if h.slowD > 0 {
+			// a slow OnConnect handler: the connection is authenticated (connect reply sent), its status
+			// is still "connecting" and the stale timer is still the armed one.  Time passes, and if the
+			// stale timer is due it fires now.  closeStale must return at once (authenticated); a close
+			// started here would wait for this handler (connectMu), hence the goroutine.
+			h.advance(h.slowD)
+			if a := h.sched.active(); a != nil && a.due <= h.sched.vnow {
+				a.fired = true
+				done := make(chan struct{})
+				h.staleDone = done
+				go func() { c.closeStale(); close(done) }()
+				select {
+				case <-done:
+				case <-time.After(20 * time.Millisecond):
+				}
+			}
+		}
 		c.OnSubscribe(func(e SubscribeEvent, cb SubscribeCallback) {
 			sp := h.subSpec[e.Channel]
 			cb(SubscribeReply{Options: SubscribeOptions{ExpireAt: h.abs(sp.E), EnablePositioning: sp.Pos}, ClientSideRefresh: sp.CSR}, nil)
@@ -496,19 +517,34 @@ func c36Align() {
 func (h *c36H) apply(l c36Label) {
 	c := h.client
 	switch l.Kind {
-	case "connect", "subscribe", "refresh", "srvrefresh", "subrefresh", "fire":
+	case "connect", "connectslow", "subscribe", "refresh", "srvrefresh", "subrefresh", "fire":
 		c36Align()
 	}
 	switch l.Kind {
 	case "advance":
 		h.advance(l.D)
-	case "connect":
+	case "connect", "connectslow":
 		if h.isClosed() || c.authenticated {
+			if l.Kind == "connectslow" {
+				h.advance(l.D)
+			}
 			return
 		}
 		h.conn = l
 		h.cmdID++
+		if l.Kind == "connectslow" {
+			h.slowD = l.D
+		}
 		h.command(&protocol.Command{Id: h.cmdID, Connect: &protocol.ConnectRequest{}})
+		h.slowD = 0
+		if h.staleDone != nil {
+			select {
+			case <-h.staleDone:
+			case <-time.After(5 * time.Second):
+				h.t.Fatalf("closeStale fired inside OnConnect did not return")
+			}
+			h.staleDone = nil
+		}
 		// the first ping / presence delays are randomized by the code: pin them (inputs of the model)
 		c.mu.Lock()
 		if c.status != statusClosed && c.authenticated {
@@ -663,6 +699,13 @@ func c36Gen(r *rand.Rand, h *c36H, step int, subs map[int]bool) *c36Label {
 			if h.cfg.Ping >= 20 && r.Intn(2) == 0 {
 				fping = h.cfg.Ping/2 + 10*r.Intn(h.cfg.Ping/20)
 			}
+			if r.Intn(3) == 0 { // the OnConnect handler is slow: the stale timer may fire inside it
+				d := 10 * (1 + r.Intn(2))
+				if e != 0 {
+					e += d
+				}
+				return &c36Label{Kind: "connectslow", E: e, CSR: r.Intn(2) == 0, FPres: h.cfg.Presence - 10*(h.cfg.Presence/20), FPing: fping, D: d}
+			}
 			return &c36Label{Kind: "connect", E: e, CSR: r.Intn(2) == 0, FPres: h.cfg.Presence - 10*(h.cfg.Presence/20), FPing: fping}
 		}
 		if due && x < 90 {
@@ -794,6 +837,9 @@ func TestVerifC36(t *testing.T) {
 		addSub(mod, c36Label{Kind: "subscribe", Chan: 1, E: 10}, c36Label{Kind: "subscribe", Chan: 2, E: 10, CSR: true}, c36Label{Kind: "subscribe", Chan: 3, E: 90})
 		addSub(mod, c36Label{Kind: "subscribe", Chan: 1, E: 10, Server: true}, c36Label{Kind: "subscribe", Chan: 2, E: 90, Server: true})
 	}
+	// slow OnConnect handler: the stale timer (due at 20) fires inside it, the connection lives on
+	corpus = append(corpus, []c36Label{{Kind: "advance", D: 5}, {Kind: "connectslow", E: 90, CSR: true, FPres: 13, FPing: 10, D: 20}, {Kind: "advance", D: 10}, {Kind: "fire"}, {Kind: "pong"}, {Kind: "advance", D: 10}, {Kind: "fire"}, {Kind: "fire"}})
+	corpus = append(corpus, []c36Label{{Kind: "advance", D: 15}, {Kind: "connectslow", FPres: 13, FPing: 10, D: 10}, {Kind: "advance", D: 10}, {Kind: "fire"}, {Kind: "fire"}})
 	// periodic position check
 	posMod := func(c *c36Cfg) { c.PosDelay, c.Pong = 20, 0 }
 	addSub(posMod, c36Label{Kind: "subscribe", Chan: 1, Pos: true}, c36Label{Kind: "subscribe", Chan: 2, Pos: true}, c36Label{Kind: "subscribe", Chan: 3}, c36Label{Kind: "stream", Chan: 1, Bad: true})
